@@ -336,7 +336,15 @@ QPcts == { AInt(0), AInt(1), AFlt(1, 1), AFlt(1, 2), ABin("-", AInt(0), AFlt(1, 
 C09Quantile == { [st |-> Select(<<F(Call2("quantile", x, q), "q"), F(Call1("count", AInt(1)), "c")>>, All, <<>>, <<>>, NoLim), sid |-> sid] :
                    x \in {Call1("int", AVal), Call1("float", AVal), AVal}, q \in QPcts, sid \in {"I", "E"} }
                \cup { [st |-> Select(<<F(AVal, "g"), F(Call2("quantile", Call1("strlen", AKey), q), "q")>>, All, <<>>, <<1>>, NoLim), sid |-> "G"] : q \in QPcts }
-C09Cases == C09Quantile \cup C09MixedText \cup C09Grouped \cup C09All \cup C09Refs \cup C09Empty \cup C09Raw
+\* integers beyond 2^53: sums and means keep every digit (the integer accumulator, not a float one)
+D16a == <<57,48,48,55,49,57,57,50,53,52,55,52,48,57,57,51>>       \* 9007199254740993 = 2^53 + 1
+D16b == <<52,53,48,51,53,57,57,54,50,55,51,55,48,52,57,55>>       \* 4503599627370497 = 2^52 + 1
+StoreBA == << SP(<<97, 49>>, D16a), SP(<<97, 50>>, Dig(1)), SP(<<98, 49>>, D16b), SP(<<98, 50>>, D16b), SP(<<99, 49>>, Dig(7)), SP(<<99, 50>>, D16a), SP(<<99, 51>>, Dig(2)), SP(<<99, 52>>, Dig(2)) >>
+C09BigInts == { [st |-> Select(<<F(ACall("substr", <<AKey, AInt(0), AInt(1)>>), "p"), f>>, All, <<>>, <<1>>, NoLim), sid |-> "BA"] :
+                  f \in { F(Call1("sum", Call1("int", AVal)), "s"), F(Call1("avg", Call1("int", AVal)), "a"), F(Call1("sum", AVal), "sv"), F(Call1("avg", AVal), "av"), F(Call1("count", AInt(1)), "c") } }
+              \cup { [st |-> Select(<<f>>, ABin("^=", AKey, AStr(pre)), <<>>, <<>>, NoLim), sid |-> "BA"] :
+                  f \in { F(Call1("sum", Call1("int", AVal)), "s"), F(Call1("avg", Call1("int", AVal)), "a") }, pre \in { <<97>>, <<98>>, <<99>> } }
+C09Cases == C09BigInts \cup C09Quantile \cup C09MixedText \cup C09Grouped \cup C09All \cup C09Refs \cup C09Empty \cup C09Raw
 
 -----------------------------------------------------------------------------
 (* c05: aliases and the field cache.  Stores in which the first, middle and last scanned rows fail the filter. *)
@@ -397,8 +405,8 @@ C05KCases == UNION { C05KFor(n) : n \in 1..(IF Scale >= 2 THEN 5 ELSE 4) }
 
 -----------------------------------------------------------------------------
 StoreOf(sid) == CASE sid = "T" -> StoreT [] sid = "I" -> StoreI [] sid = "F" -> StoreF [] sid = "E" -> <<>>
-                  [] sid = "J" -> StoreJ [] sid = "O" -> StoreO [] sid = "M" -> StoreM [] sid = "G" -> StoreG [] sid = "Z" -> StoreZ [] sid = "X" -> StoreX [] sid = "B" -> StoreB [] sid = "V" -> StoreV [] sid = "S40" -> SeqStore(40) [] sid = "S7" -> SeqStore(7) [] sid \in {"K" \o ToString(n) : n \in 1..5} -> StoreK(CHOOSE n \in 1..5 : "K" \o ToString(n) = sid) [] sid \in {SizeId(n) : n \in 0..100} -> SeqStore(CHOOSE n \in 0..100 : SizeId(n) = sid) [] OTHER -> <<>>
-StoreIds == {"T", "I", "F", "E", "J", "V", "O", "G", "M", "Z", "B", "X", "S40", "S7"} \cup {SizeId(n) : n \in SizesSmall \cup SizesBig} \cup {"K" \o ToString(n) : n \in 1..5}
+                  [] sid = "J" -> StoreJ [] sid = "O" -> StoreO [] sid = "M" -> StoreM [] sid = "G" -> StoreG [] sid = "Z" -> StoreZ [] sid = "X" -> StoreX [] sid = "BA" -> StoreBA [] sid = "B" -> StoreB [] sid = "V" -> StoreV [] sid = "S40" -> SeqStore(40) [] sid = "S7" -> SeqStore(7) [] sid \in {"K" \o ToString(n) : n \in 1..5} -> StoreK(CHOOSE n \in 1..5 : "K" \o ToString(n) = sid) [] sid \in {SizeId(n) : n \in 0..100} -> SeqStore(CHOOSE n \in 0..100 : SizeId(n) = sid) [] OTHER -> <<>>
+StoreIds == {"T", "I", "F", "E", "J", "V", "O", "G", "M", "Z", "B", "X", "BA", "S40", "S7"} \cup {SizeId(n) : n \in SizesSmall \cup SizesBig} \cup {"K" \o ToString(n) : n \in 1..5}
 
 Cases == CASE Mode = "c01" -> C01Cases [] Mode = "pt" -> PtCases [] Mode = "c10" -> C10Cases [] Mode = "c04" -> C04Cases [] Mode = "c08" -> C08Select [] Mode = "c08d" -> C08Delete [] Mode = "c07" -> C07Cases [] Mode = "c09" -> C09Cases [] Mode = "c05" -> C05Cases [] Mode = "c05k" -> C05KCases [] OTHER -> {}
 
